@@ -7,6 +7,13 @@ C15 — the proved chain from an ε-match to the trapezoid handed to the DP alig
 Both links are theorems about the models the drivers run against `filter.Filter` and
 `filter.Merger`; the hit list passes from one to the other through the morass, modelled as
 "some list with the same elements in ascending `From`".
+
+Two forms of each chain theorem: `…_given_merge` assumes that the merger model answers
+(`merge … = some traps`); the unsuffixed form proves it (`filter_hits_in_merger_domain` +
+`merger_total`) and so has no hypothesis on the merger.  Both exist for the forward strand
+(`epsmatch_inside_trapezoid`), for either strand of `PALS.Align(complement)`
+(`epsmatch_inside_trapezoid_strand`) and for the complement strand of a self comparison
+(`epsmatch_inside_trapezoid_complement`).
 -/
 import Biogo.Properties.C14
 import Biogo.Properties.C15_merge
@@ -67,7 +74,7 @@ theorem epsmatch_inside_trapezoid_given_merge {lk : Lookup} (hlk : FourLetter lk
   have hk1 : 2 ≤ k ∧ 2 * k ≤ Biogo.Kmer.wordBits := by
     unfold Biogo.Kmer.minKmerLen at hk; unfold Biogo.Kmer.maxKmerLen at hk'; unfold Biogo.Kmer.wordBits; omega
   -- link 1: the filter
-  obtain ⟨_, hcomp⟩ := Biogo.Properties.C14.filter_complete hlk t q k n e off selfAlign hk hk' ht hq hthr he hoff
+  obtain ⟨_, hcomp⟩ := Biogo.Properties.C14.filter_complete hlk t q k n e off selfAlign hk hk' ht hthr he hoff
   obtain ⟨h, hh, hcov⟩ := hcomp hits hf a b hmatch hreq
   obtain ⟨h0, hh0, rfl⟩ := List.mem_map.mp hh
   simp only [covers, toSpec, Bool.and_eq_true] at hcov
@@ -83,7 +90,7 @@ theorem epsmatch_inside_trapezoid_given_merge {lk : Lookup} (hlk : FourLetter lk
     omega
   have hwf := Biogo.Proofs.PalsChain.filter_hits_wf hlk _ (builtIndex lk k t)
     { minMatch := n, maxError := e, tubeOffset := off } q selfAlign false
-    (by rw [builtIndex_k]; omega) (by rw [builtIndex_k]; exact hk1.2) hq (by rw [builtIndex_k]; exact hqlen)
+    (by rw [Biogo.Properties.C14.rule_tie]; rfl) (by rw [builtIndex_k]; omega) (by rw [builtIndex_k]; exact hk1.2) (by rw [builtIndex_k]; exact hqlen)
     he hoff hits hf
   -- link 2: the merger
   have pre : Pre (mergerCfg lk t q k e off g selfAlign) sorted :=
@@ -133,64 +140,226 @@ theorem epsmatch_inside_trapezoid_given_merge {lk : Lookup} (hlk : FourLetter lk
     apply decide_eq_true
     omega
 
-/-- **`filter_hits_in_merger_domain`** — every hit the filter model returns (query over the
-    four-letter alphabet, at least a word long) lies inside the domain of the merger model:
-    `From - bottomPadding ≤ Qlen + 1` (a hit starts at a query position already scanned), i.e. the
-    sentinel of the merger's active list stays an inert end marker. -/
-theorem filter_hits_in_merger_domain {lk : Lookup} (hlk : FourLetter lk) (t q : List UInt8)
-    (k n e off g : Nat) (selfAlign : Bool)
-    (hk : Biogo.Kmer.minKmerLen ≤ k) (hk' : k ≤ Biogo.Kmer.maxKmerLen)
-    (hq : Biogo.Proofs.FilterComplete.AllValid lk q) (hkq : k ≤ q.length)
-    (he : e ≤ off) (hoff : 1 ≤ off)
+
+/-- `NewMerger(index, working, params, maxIGap, selfCompare && !complement)` as `PALS.Align(complement)`
+    builds it since the repair `d09a2b0` (upstream `fd44978`): on the complement strand the merger's
+    main-diagonal cut is off — the filter has already restricted that strand to one side of the
+    anti-diagonal. -/
+def mergerCfgStrand (lk : Lookup) (t q : List UInt8) (k e off g : Nat) (selfAlign complement : Bool) : Cfg :=
+  mergerCfg lk t q k e off g (selfAlign && !complement)
+
+/-- **`epsmatch_inside_trapezoid_strand_given_merge`** — the chain for either strand of
+    `PALS.Align(complement)`, *given that the merger model answers* (`hm`;
+    `epsmatch_inside_trapezoid_strand` below discharges this hypothesis):
+    the filter runs with the flags `(selfAlign, complement)`, the merger with
+    `selfComparison = selfAlign && !complement` (`pals.go`).  Every ε-match required on the strand
+    (`requiredC`: forward strand of a self comparison `a < b`, complement strand `Tlen ≤ a + b`,
+    everything otherwise) lies in a returned trapezoid that passes the pre-screen of `AlignTraps`;
+    only on the forward strand of a self comparison the match must in addition stay
+    `MaxError + maxIGap + tubeWidth` diagonals above the main diagonal (the merger's cut). -/
+theorem epsmatch_inside_trapezoid_strand_given_merge {lk : Lookup} (hlk : FourLetter lk) (t q : List UInt8)
+    (k n e off g : Nat) (selfAlign complement : Bool)
+    (hk : Biogo.Kmer.minKmerLen ≤ k) (hk' : k ≤ Biogo.Kmer.maxKmerLen) (ht : k + 1 ≤ t.length)
+    (hq : Biogo.Proofs.FilterComplete.AllValid lk q) (htv : Biogo.Proofs.FilterComplete.AllValid lk t)
+    (hthr : 0 < minWordsPerFilterHit n k e) (he : e ≤ off) (hoff : 1 ≤ off) (hg : 1 ≤ g)
     (hits : List Biogo.Filter.Hit)
     (hf : filter Biogo.Generated.FilterFacts.rule lk (builtIndex lk k t)
-            { minMatch := n, maxError := e, tubeOffset := off } q selfAlign false = .ok hits) :
-    ∀ h ∈ hits, inDomain (mergerCfg lk t q k e off g selfAlign) (toF h) = true := by
+            { minMatch := n, maxError := e, tubeOffset := off } q selfAlign complement = .ok hits)
+    (sorted : List FHit) (hsame : ∀ x, x ∈ sorted ↔ x ∈ hits.map toF) (hsorted : SortedByFrom sorted)
+    (traps : List Trap) (hm : merge (mergerCfgStrand lk t q k e off g selfAlign complement) sorted = some traps) :
+    ∀ a b, EpsMatch lk t q n e a b → requiredC selfAlign complement t.length a b = true →
+      (selfAlign = true → complement = false → (b : Int) - a > (e : Int) + g + ((off : Int) + e - 1)) →
+      ∃ T ∈ traps, T.left ≤ (b : Int) - a ∧ (b : Int) - a ≤ T.right ∧
+        T.bottom < (b : Int) + n ∧ (b : Int) < T.top ∧ preScreen k T = true := by
+  intro a b hmatch hreq hfar
+  have hk1 : 2 ≤ k ∧ 2 * k ≤ Biogo.Kmer.wordBits := by
+    unfold Biogo.Kmer.minKmerLen at hk; unfold Biogo.Kmer.maxKmerLen at hk'; unfold Biogo.Kmer.wordBits; omega
+  -- link 1: the filter
+  have hcomp := Biogo.Properties.C14.filter_complete_strand hlk t q k n e off selfAlign complement hk hk' ht hthr he hoff
+  obtain ⟨h, hh, hcov⟩ := hcomp hits hf a b hmatch hreq
+  obtain ⟨h0, hh0, rfl⟩ := List.mem_map.mp hh
+  simp only [covers, toSpec, Bool.and_eq_true] at hcov
+  obtain ⟨⟨⟨c1, c2⟩, c3⟩, c4⟩ := hcov
+  have c1 := of_decide_eq_true c1
+  have c2 := of_decide_eq_true c2
+  have c3 := of_decide_eq_true c3
+  have c4 := of_decide_eq_true c4
+  -- every filter hit has From ≤ To
+  have hqlen : k ≤ q.length := by
+    obtain ⟨_, hb, _⟩ := hmatch
+    have := thr_pos_imp hthr (by omega : 1 ≤ k)
+    omega
+  have hwf := Biogo.Proofs.PalsChain.filter_hits_wf hlk _ (builtIndex lk k t)
+    { minMatch := n, maxError := e, tubeOffset := off } q selfAlign complement
+    (by rw [Biogo.Properties.C14.rule_tie]; rfl) (by rw [builtIndex_k]; omega) (by rw [builtIndex_k]; exact hk1.2) (by rw [builtIndex_k]; exact hqlen)
+    he hoff hits hf
+  -- link 2: the merger
+  have pre : Pre (mergerCfgStrand lk t q k e off g selfAlign complement) sorted :=
+    { band := by simp only [Cfg.binWidth, Cfg.tubeWidth, mergerCfgStrand, mergerCfg]; omega
+      gap := by simp only [mergerCfgStrand, mergerCfg]; omega
+      qvalid := validity_allValid lk q hq
+      tvalid := validity_allValid lk t htv
+      sorted := hsorted
+      ordered := by
+        intro x hx
+        obtain ⟨y, hy, rfl⟩ := List.mem_map.mp ((hsame x).mp hx)
+        have := (hwf y hy).1
+        simp only [toF]
+        omega }
+  have hin : toF h0 ∈ sorted := (hsame _).mpr (List.mem_map.mpr ⟨h0, hh0, rfl⟩)
+  have hnotcut : dropped (mergerCfgStrand lk t q k e off g selfAlign complement) (toF h0) = false := by
+    have hql : (mergerCfgStrand lk t q k e off g selfAlign complement).qlen = (q.length : Int) := by
+      simp [Cfg.qlen, mergerCfgStrand, mergerCfg, validity]
+    have hbq : b + n ≤ q.length := hmatch.2.1
+    unfold dropped
+    rw [Bool.or_eq_false_iff]
+    constructor
+    · -- the band of the covering hit contains the diagonal of the match, which lies inside the query
+      unfold beyondQuery
+      rw [hql]
+      simp only [toF]
+      apply decide_eq_false
+      omega
+    · unfold selfCut
+      cases hs : selfAlign with
+      | false => simp [mergerCfgStrand, mergerCfg]
+      | true =>
+        cases hc : complement with
+        | true => simp [mergerCfgStrand, mergerCfg]
+        | false =>
+          have := hfar hs hc
+          simp only [mergerCfgStrand, mergerCfg, toF, Bool.true_and, Bool.not_false]
+          apply decide_eq_false
+          omega
+  obtain ⟨T, hT, l1, l2, l3, l4⟩ := merger_covers_hits _ sorted traps pre hm (toF h0) hin hnotcut
+  have hk0 := (hwf h0 hh0).1
+  rw [builtIndex_k] at hk0
+  refine ⟨T, hT, ?_, ?_, ?_, ?_, ?_⟩
+  · simp only [toF] at l1; omega
+  · simp only [toF, Cfg.binWidth, Cfg.tubeWidth, mergerCfgStrand, mergerCfg] at l2; omega
+  · simp only [toF] at l3; omega
+  · simp only [toF] at l4; omega
+  · simp only [toF] at l3 l4
+    unfold preScreen
+    apply decide_eq_true
+    omega
+
+/-- **`epsmatch_inside_trapezoid_complement_given_merge`** — the complement strand of a self
+    comparison (`PALS.Align(true)` with `selfCompare`), given that the merger model answers: every
+    ε-match of the target against the reverse-complemented query that lies on or above the
+    anti-diagonal (`Tlen ≤ a + b`) is inside a trapezoid handed to the DP — with no margin: the merger
+    does not cut on this strand. -/
+theorem epsmatch_inside_trapezoid_complement_given_merge {lk : Lookup} (hlk : FourLetter lk) (t q : List UInt8)
+    (k n e off g : Nat)
+    (hk : Biogo.Kmer.minKmerLen ≤ k) (hk' : k ≤ Biogo.Kmer.maxKmerLen) (ht : k + 1 ≤ t.length)
+    (hq : Biogo.Proofs.FilterComplete.AllValid lk q) (htv : Biogo.Proofs.FilterComplete.AllValid lk t)
+    (hthr : 0 < minWordsPerFilterHit n k e) (he : e ≤ off) (hoff : 1 ≤ off) (hg : 1 ≤ g)
+    (hits : List Biogo.Filter.Hit)
+    (hf : filter Biogo.Generated.FilterFacts.rule lk (builtIndex lk k t)
+            { minMatch := n, maxError := e, tubeOffset := off } q true true = .ok hits)
+    (sorted : List FHit) (hsame : ∀ x, x ∈ sorted ↔ x ∈ hits.map toF) (hsorted : SortedByFrom sorted)
+    (traps : List Trap) (hm : merge (mergerCfg lk t q k e off g false) sorted = some traps) :
+    ∀ a b, EpsMatch lk t q n e a b → t.length ≤ a + b →
+      ∃ T ∈ traps, T.left ≤ (b : Int) - a ∧ (b : Int) - a ≤ T.right ∧
+        T.bottom < (b : Int) + n ∧ (b : Int) < T.top ∧ preScreen k T = true := by
+  intro a b hmatch hab
+  exact epsmatch_inside_trapezoid_strand_given_merge hlk t q k n e off g true true hk hk' ht hq htv hthr he hoff hg hits hf
+    sorted hsame hsorted traps hm a b hmatch (by simp [requiredC, hab]) (by intro _ h; cases h)
+
+/-! ### the filter's hits lie in the merger's domain
+
+Since the ticker follows the query position (`Rule.tickByPosition`, fix `0c69d0c`) the scan of the
+filter model is the position-by-position scan for *any* query, so these hold for any query — the
+hypothesis `AllValid lk q` of their first statement is gone — and on either strand; the merger's
+`selfComparison` flag plays no part in them (`mself` below is arbitrary; `PALS.Align` passes
+`selfAlign && !complement`, `mergerCfgStrand`). -/
+
+/-- **`filter_hits_in_merger_domain_strand`** — every hit the filter model returns (any query at
+    least a word long, either strand) lies inside the domain of the merger model:
+    `From - bottomPadding ≤ Qlen + 1` (a hit starts at a query position already scanned), i.e. the
+    sentinel of the merger's active list stays an inert end marker. -/
+theorem filter_hits_in_merger_domain_strand {lk : Lookup} (hlk : FourLetter lk) (t q : List UInt8)
+    (k n e off g : Nat) (selfAlign complement mself : Bool)
+    (hk : Biogo.Kmer.minKmerLen ≤ k) (hk' : k ≤ Biogo.Kmer.maxKmerLen)
+    (hkq : k ≤ q.length) (he : e ≤ off) (hoff : 1 ≤ off)
+    (hits : List Biogo.Filter.Hit)
+    (hf : filter Biogo.Generated.FilterFacts.rule lk (builtIndex lk k t)
+            { minMatch := n, maxError := e, tubeOffset := off } q selfAlign complement = .ok hits) :
+    ∀ h ∈ hits, inDomain (mergerCfg lk t q k e off g mself) (toF h) = true := by
   have hk1 : 2 ≤ k ∧ 2 * k ≤ Biogo.Kmer.wordBits := by
     unfold Biogo.Kmer.minKmerLen at hk; unfold Biogo.Kmer.maxKmerLen at hk'; unfold Biogo.Kmer.wordBits; omega
   intro h hh
   have hwf := Biogo.Proofs.PalsChain.filter_hits_wf hlk _ (builtIndex lk k t)
-    { minMatch := n, maxError := e, tubeOffset := off } q selfAlign false
-    (by rw [builtIndex_k]; omega) (by rw [builtIndex_k]; exact hk1.2) hq (by rw [builtIndex_k]; exact hkq)
+    { minMatch := n, maxError := e, tubeOffset := off } q selfAlign complement
+    (by rw [Biogo.Properties.C14.rule_tie]; rfl)
+    (by rw [builtIndex_k]; omega) (by rw [builtIndex_k]; exact hk1.2) (by rw [builtIndex_k]; exact hkq)
     he hoff hits hf h hh
-  have hql : (mergerCfg lk t q k e off g selfAlign).qlen = (q.length : Int) := by
+  have hql : (mergerCfg lk t q k e off g mself).qlen = (q.length : Int) := by
     simp [Cfg.qlen, mergerCfg, validity]
   unfold inDomain
   rw [hql]
   simp only [toF, Cfg.bottomPadding, mergerCfg]
   exact decide_eq_true (by omega)
 
-/-- **`filter_hits_within_query_band`** — when the query is at least a tube wide
-    (`TubeOffset + MaxError ≤ Qlen + 1`) no hit of the filter model lies beyond the last query row
-    (`-Diagonal ≤ Qlen`): the guard `Left > Qlen` of `MergeFilterHit` never fires.  The diagonal of a
-    hit is that of the tube index it is *emitted under* (by an evicting k-mer, a tick, or the final
-    flush over a circular array), so this needs a global invariant of the tube array
-    (`Proofs/PalsChainDomain.lean`).  The width condition is needed
-    (`filter_hit_beyond_query_narrow`): the wrap-around `tubeIndex 0 → cap-1` of `commonKmer` emits
-    under index `cap-1`, whose diagonal lies up to `TubeOffset + MaxError - 1` beyond the end of the
-    target — the sixth defect (`MergeFilterHit` walked off its list on such a hit). -/
-theorem filter_hits_within_query_band {lk : Lookup} (hlk : FourLetter lk) (t q : List UInt8)
+/-- **`filter_hits_in_merger_domain`** — the forward strand, the merger built with the filter's
+    `selfAlign` flag (the form `epsmatch_inside_trapezoid` uses). -/
+theorem filter_hits_in_merger_domain {lk : Lookup} (hlk : FourLetter lk) (t q : List UInt8)
     (k n e off g : Nat) (selfAlign : Bool)
-    (hk : Biogo.Kmer.minKmerLen ≤ k) (hk' : k ≤ Biogo.Kmer.maxKmerLen) (ht : k + 1 ≤ t.length)
-    (hq : Biogo.Proofs.FilterComplete.AllValid lk q) (hkq : k ≤ q.length)
-    (hthr : 0 < minWordsPerFilterHit n k e) (he : e ≤ off) (hoff : 1 ≤ off) (hwide : off + e ≤ q.length + 1)
+    (hk : Biogo.Kmer.minKmerLen ≤ k) (hk' : k ≤ Biogo.Kmer.maxKmerLen)
+    (hkq : k ≤ q.length) (he : e ≤ off) (hoff : 1 ≤ off)
     (hits : List Biogo.Filter.Hit)
     (hf : filter Biogo.Generated.FilterFacts.rule lk (builtIndex lk k t)
             { minMatch := n, maxError := e, tubeOffset := off } q selfAlign false = .ok hits) :
-    ∀ h ∈ hits, beyondQuery (mergerCfg lk t q k e off g selfAlign) (toF h) = false := by
+    ∀ h ∈ hits, inDomain (mergerCfg lk t q k e off g selfAlign) (toF h) = true :=
+  filter_hits_in_merger_domain_strand hlk t q k n e off g selfAlign false selfAlign hk hk' hkq he hoff hits hf
+
+/-- **`filter_hits_within_query_band_strand`** — when the query is at least a tube wide
+    (`TubeOffset + MaxError ≤ Qlen + 1`) no hit of the filter model (any query, either strand) lies
+    beyond the last query row (`-Diagonal ≤ Qlen`): the guard `Left > Qlen` of `MergeFilterHit` never
+    fires.  The diagonal of a hit is that of the tube index it is *emitted under* (by an evicting
+    k-mer, a tick, or the final flush over a circular array), so this needs a global invariant of the
+    tube array (`Proofs/PalsChainDomain.lean`).  The width condition is needed
+    (`filter_hit_beyond_query_narrow`): the wrap-around `tubeIndex 0 → cap-1` of `commonKmer` emits
+    under index `cap-1`, whose diagonal lies up to `TubeOffset + MaxError - 1` beyond the end of the
+    target — the sixth defect (`MergeFilterHit` walked off its list on such a hit). -/
+theorem filter_hits_within_query_band_strand {lk : Lookup} (hlk : FourLetter lk) (t q : List UInt8)
+    (k n e off g : Nat) (selfAlign complement mself : Bool)
+    (hk : Biogo.Kmer.minKmerLen ≤ k) (hk' : k ≤ Biogo.Kmer.maxKmerLen) (ht : k + 1 ≤ t.length)
+    (hkq : k ≤ q.length)
+    (hthr : 0 < minWordsPerFilterHit n k e) (he : e ≤ off) (hoff : 1 ≤ off) (hwide : off + e ≤ q.length + 1)
+    (hits : List Biogo.Filter.Hit)
+    (hf : filter Biogo.Generated.FilterFacts.rule lk (builtIndex lk k t)
+            { minMatch := n, maxError := e, tubeOffset := off } q selfAlign complement = .ok hits) :
+    ∀ h ∈ hits, beyondQuery (mergerCfg lk t q k e off g mself) (toF h) = false := by
   have hk1 : 2 ≤ k ∧ 2 * k ≤ Biogo.Kmer.wordBits := by
     unfold Biogo.Kmer.minKmerLen at hk; unfold Biogo.Kmer.maxKmerLen at hk'; unfold Biogo.Kmer.wordBits; omega
   rw [Biogo.Properties.C14.rule_tie] at hf
   intro h hh
   obtain ⟨d1, _⟩ := Biogo.Proofs.PalsChainDomain.filter_hits_dom hlk t q k
-    { minMatch := n, maxError := e, tubeOffset := off } selfAlign (by omega) hk1.2 (by omega) hq hkq he hoff
+    { minMatch := n, maxError := e, tubeOffset := off } selfAlign complement (by omega) hk1.2 (by omega) hkq he hoff
     (by show e + 1 ≤ q.length; omega) hwide hthr hits hf h hh
-  have hql : (mergerCfg lk t q k e off g selfAlign).qlen = (q.length : Int) := by
+  have hql : (mergerCfg lk t q k e off g mself).qlen = (q.length : Int) := by
     simp [Cfg.qlen, mergerCfg, validity]
   unfold beyondQuery
   rw [hql]
   simp only [toF]
   exact decide_eq_false (by omega)
+
+/-- **`filter_hits_within_query_band`** — the forward strand, the merger built with the filter's
+    `selfAlign` flag. -/
+theorem filter_hits_within_query_band {lk : Lookup} (hlk : FourLetter lk) (t q : List UInt8)
+    (k n e off g : Nat) (selfAlign : Bool)
+    (hk : Biogo.Kmer.minKmerLen ≤ k) (hk' : k ≤ Biogo.Kmer.maxKmerLen) (ht : k + 1 ≤ t.length)
+    (hkq : k ≤ q.length)
+    (hthr : 0 < minWordsPerFilterHit n k e) (he : e ≤ off) (hoff : 1 ≤ off) (hwide : off + e ≤ q.length + 1)
+    (hits : List Biogo.Filter.Hit)
+    (hf : filter Biogo.Generated.FilterFacts.rule lk (builtIndex lk k t)
+            { minMatch := n, maxError := e, tubeOffset := off } q selfAlign false = .ok hits) :
+    ∀ h ∈ hits, beyondQuery (mergerCfg lk t q k e off g selfAlign) (toF h) = false :=
+  filter_hits_within_query_band_strand hlk t q k n e off g selfAlign false selfAlign hk hk' ht hkq hthr he hoff hwide
+    hits hf
+
+/-! ### the chain without a hypothesis on the merger -/
 
 /-- **`epsmatch_inside_trapezoid`** — the chain without a hypothesis on the merger: for target and
     query over the four-letter alphabet, the parameter ranges of C14's `filter_complete`,
@@ -217,7 +386,7 @@ theorem epsmatch_inside_trapezoid {lk : Lookup} (hlk : FourLetter lk) (t q : Lis
         (selfAlign = true → (b : Int) - a > (e : Int) + g + ((off : Int) + e - 1)) →
         ∃ T ∈ traps, T.left ≤ (b : Int) - a ∧ (b : Int) - a ≤ T.right ∧
           T.bottom < (b : Int) + n ∧ (b : Int) < T.top ∧ preScreen k T = true := by
-  have hdom := filter_hits_in_merger_domain hlk t q k n e off g selfAlign hk hk' hq hkq he hoff hits hf
+  have hdom := filter_hits_in_merger_domain hlk t q k n e off g selfAlign hk hk' hkq he hoff hits hf
   obtain ⟨traps, hm⟩ := merger_total (mergerCfg lk t q k e off g selfAlign) sorted (by
     intro x hx
     obtain ⟨y, hy, rfl⟩ := List.mem_map.mp ((hsame x).mp hx)
@@ -225,11 +394,83 @@ theorem epsmatch_inside_trapezoid {lk : Lookup} (hlk : FourLetter lk) (t q : Lis
   exact ⟨traps, hm, epsmatch_inside_trapezoid_given_merge hlk t q k n e off g selfAlign hk hk' ht hq htv hthr he hoff hg
     hits hf sorted hsame hsorted traps hm⟩
 
+/-- **`epsmatch_inside_trapezoid_strand`** — the chain for either strand of `PALS.Align(complement)`
+    without a hypothesis on the merger: the filter runs with the flags `(selfAlign, complement)`, the
+    merger with `selfComparison = selfAlign && !complement` (`mergerCfgStrand`).  **The merger model
+    answers** on the filter's hits (`filter_hits_in_merger_domain_strand` + `merger_total`), and every
+    ε-match required on the strand (`requiredC`: forward strand of a self comparison `a < b`,
+    complement strand `Tlen ≤ a + b`, everything otherwise) lies in a returned trapezoid that passes
+    the pre-screen of `AlignTraps`; only on the forward strand of a self comparison the match must in
+    addition stay `MaxError + maxIGap + tubeWidth` diagonals above the main diagonal (the merger's
+    cut). -/
+theorem epsmatch_inside_trapezoid_strand {lk : Lookup} (hlk : FourLetter lk) (t q : List UInt8)
+    (k n e off g : Nat) (selfAlign complement : Bool)
+    (hk : Biogo.Kmer.minKmerLen ≤ k) (hk' : k ≤ Biogo.Kmer.maxKmerLen) (ht : k + 1 ≤ t.length)
+    (hq : Biogo.Proofs.FilterComplete.AllValid lk q) (htv : Biogo.Proofs.FilterComplete.AllValid lk t)
+    (hkq : k ≤ q.length)
+    (hthr : 0 < minWordsPerFilterHit n k e) (he : e ≤ off) (hoff : 1 ≤ off) (hg : 1 ≤ g)
+    (hits : List Biogo.Filter.Hit)
+    (hf : filter Biogo.Generated.FilterFacts.rule lk (builtIndex lk k t)
+            { minMatch := n, maxError := e, tubeOffset := off } q selfAlign complement = .ok hits)
+    (sorted : List FHit) (hsame : ∀ x, x ∈ sorted ↔ x ∈ hits.map toF) (hsorted : SortedByFrom sorted) :
+    ∃ traps, merge (mergerCfgStrand lk t q k e off g selfAlign complement) sorted = some traps ∧
+      ∀ a b, EpsMatch lk t q n e a b → requiredC selfAlign complement t.length a b = true →
+        (selfAlign = true → complement = false → (b : Int) - a > (e : Int) + g + ((off : Int) + e - 1)) →
+        ∃ T ∈ traps, T.left ≤ (b : Int) - a ∧ (b : Int) - a ≤ T.right ∧
+          T.bottom < (b : Int) + n ∧ (b : Int) < T.top ∧ preScreen k T = true := by
+  have hdom := filter_hits_in_merger_domain_strand hlk t q k n e off g selfAlign complement (selfAlign && !complement)
+    hk hk' hkq he hoff hits hf
+  obtain ⟨traps, hm⟩ := merger_total (mergerCfgStrand lk t q k e off g selfAlign complement) sorted (by
+    intro x hx
+    obtain ⟨y, hy, rfl⟩ := List.mem_map.mp ((hsame x).mp hx)
+    exact Or.inr (hdom y hy))
+  exact ⟨traps, hm, epsmatch_inside_trapezoid_strand_given_merge hlk t q k n e off g selfAlign complement hk hk' ht hq htv
+    hthr he hoff hg hits hf sorted hsame hsorted traps hm⟩
+
+/-- **`epsmatch_inside_trapezoid_complement`** — the complement strand of a self comparison
+    (`PALS.Align(true)` with `selfCompare`) without a hypothesis on the merger: the merger model
+    (built with `selfComparison = false`, as `pals.go` does on this strand) answers, and every ε-match
+    of the target against the reverse-complemented query that lies on or above the anti-diagonal
+    (`Tlen ≤ a + b`) is inside a trapezoid handed to the DP — with no margin: the merger does not cut
+    on this strand. -/
+theorem epsmatch_inside_trapezoid_complement {lk : Lookup} (hlk : FourLetter lk) (t q : List UInt8)
+    (k n e off g : Nat)
+    (hk : Biogo.Kmer.minKmerLen ≤ k) (hk' : k ≤ Biogo.Kmer.maxKmerLen) (ht : k + 1 ≤ t.length)
+    (hq : Biogo.Proofs.FilterComplete.AllValid lk q) (htv : Biogo.Proofs.FilterComplete.AllValid lk t)
+    (hkq : k ≤ q.length)
+    (hthr : 0 < minWordsPerFilterHit n k e) (he : e ≤ off) (hoff : 1 ≤ off) (hg : 1 ≤ g)
+    (hits : List Biogo.Filter.Hit)
+    (hf : filter Biogo.Generated.FilterFacts.rule lk (builtIndex lk k t)
+            { minMatch := n, maxError := e, tubeOffset := off } q true true = .ok hits)
+    (sorted : List FHit) (hsame : ∀ x, x ∈ sorted ↔ x ∈ hits.map toF) (hsorted : SortedByFrom sorted) :
+    ∃ traps, merge (mergerCfg lk t q k e off g false) sorted = some traps ∧
+      ∀ a b, EpsMatch lk t q n e a b → t.length ≤ a + b →
+        ∃ T ∈ traps, T.left ≤ (b : Int) - a ∧ (b : Int) - a ≤ T.right ∧
+          T.bottom < (b : Int) + n ∧ (b : Int) < T.top ∧ preScreen k T = true := by
+  obtain ⟨traps, hm, hall⟩ := epsmatch_inside_trapezoid_strand hlk t q k n e off g true true hk hk' ht hq htv hkq hthr he hoff hg
+    hits hf sorted hsame hsorted
+  refine ⟨traps, hm, ?_⟩
+  intro a b hmatch hab
+  exact hall a b hmatch (by simp [requiredC, hab]) (by intro _ h; cases h)
+
 theorem except_ok_of_check {ε α : Type} [DecidableEq α] (x : Except ε α) (v : α)
     (h : (match x with | .ok a => decide (a = v) | .error _ => false) = true) : x = .ok v := by
   cases x with
   | error e => simp at h
   | ok a => simp only [decide_eq_true_eq] at h; rw [h]
+
+theorem fourLetter_dna : FourLetter Biogo.Properties.C14.dna := by
+  intro b d h
+  unfold Biogo.Properties.C14.dna at h
+  split at h
+  · cases h; omega
+  · split at h
+    · cases h; omega
+    · split at h
+      · cases h; omega
+      · split at h
+        · cases h; omega
+        · cases h
 
 /-! ### non-vacuity: the hypotheses hold on the K4 witness of `corpus/C14.txt`
 (`k=4 n=4 e=0 off=2`, target `caacc`, query `acaacaaaca`, exact match at `a=0 b=1`), where the chain
@@ -238,20 +479,8 @@ yields the trapezoid `{Top 5, Bottom 1, Left 1, Right 2}` -/
 open Biogo.Properties.C14 (dna) in
 example :
     ∃ T ∈ [(⟨5, 1, 1, 2⟩ : Trap)], T.left ≤ ((1 : Nat) : Int) - (0 : Nat) ∧ ((1 : Nat) : Int) - (0 : Nat) ≤ T.right ∧
-      T.bottom < ((1 : Nat) : Int) + (4 : Nat) ∧ ((1 : Nat) : Int) < T.top ∧ preScreen (4 : Nat) T = true := by
-  have hlk : FourLetter dna := by
-    intro b d h
-    unfold dna at h
-    split at h
-    · cases h; omega
-    · split at h
-      · cases h; omega
-      · split at h
-        · cases h; omega
-        · split at h
-          · cases h; omega
-          · cases h
-  exact epsmatch_inside_trapezoid_given_merge hlk [99, 97, 97, 99, 99] [97, 99, 97, 97, 99, 97, 97, 97, 99, 97] 4 4 0 2 5 false
+      T.bottom < ((1 : Nat) : Int) + (4 : Nat) ∧ ((1 : Nat) : Int) < T.top ∧ preScreen (4 : Nat) T = true :=
+  epsmatch_inside_trapezoid_given_merge fourLetter_dna [99, 97, 97, 99, 99] [97, 99, 97, 97, 99, 97, 97, 97, 99, 97] 4 4 0 2 5 false
     (by decide) (by decide) (by decide)
     (by unfold Biogo.Proofs.FilterComplete.AllValid; decide) (by unfold Biogo.Proofs.FilterComplete.AllValid; decide)
     (by decide) (by decide) (by decide) (by decide)
@@ -266,24 +495,47 @@ example :
       ∀ a b, EpsMatch Biogo.Properties.C14.dna [99, 97, 97, 99, 99] [97, 99, 97, 97, 99, 97, 97, 97, 99, 97] 4 0 a b →
         required false a b = true → (false = true → (b : Int) - a > ((0 : Nat) : Int) + (5 : Nat) + (((2 : Nat) : Int) + (0 : Nat) - 1)) →
         ∃ T ∈ traps, T.left ≤ (b : Int) - a ∧ (b : Int) - a ≤ T.right ∧
-          T.bottom < (b : Int) + (4 : Nat) ∧ (b : Int) < T.top ∧ preScreen (4 : Nat) T = true := by
-  have hlk : FourLetter Biogo.Properties.C14.dna := by
-    intro b d h
-    unfold Biogo.Properties.C14.dna at h
-    split at h
-    · cases h; omega
-    · split at h
-      · cases h; omega
-      · split at h
-        · cases h; omega
-        · split at h
-          · cases h; omega
-          · cases h
-  exact epsmatch_inside_trapezoid hlk [99, 97, 97, 99, 99] [97, 99, 97, 97, 99, 97, 97, 97, 99, 97] 4 4 0 2 5 false
+          T.bottom < (b : Int) + (4 : Nat) ∧ (b : Int) < T.top ∧ preScreen (4 : Nat) T = true :=
+  epsmatch_inside_trapezoid fourLetter_dna [99, 97, 97, 99, 99] [97, 99, 97, 97, 99, 97, 97, 97, 99, 97] 4 4 0 2 5 false
     (by decide) (by decide) (by decide)
     (by unfold Biogo.Proofs.FilterComplete.AllValid; decide) (by unfold Biogo.Proofs.FilterComplete.AllValid; decide)
     (by decide) (by decide) (by decide) (by decide) (by decide)
     [⟨1, 5, -1⟩] (except_ok_of_check _ _ (by decide +kernel)) [⟨1, 5, -1⟩] (by simp [toF]) (by simp [SortedByFrom])
+
+/-! ### non-vacuity on the complement strand: `caacgttg` (its own reverse complement, `L = 8`),
+`k = n = 4`, `e = 0`, `off = 2`, `maxIGap = 5`: the match `(4, 4)` on the anti-diagonal is handed to
+the DP in the trapezoid `{Top 8, Bottom 4, Left 0, Right 1}`.  The covering hit has diagonal 0: with
+the merger's main-diagonal cut on (as before `d09a2b0`) it would have been dropped
+(`Left - maxIGap = -5 ≤ MaxError`). -/
+
+open Biogo.Properties.C14 (dna) in
+example :
+    (∃ T ∈ [(⟨8, 4, 0, 1⟩ : Trap)], T.left ≤ ((4 : Nat) : Int) - (4 : Nat) ∧ ((4 : Nat) : Int) - (4 : Nat) ≤ T.right ∧
+      T.bottom < ((4 : Nat) : Int) + (4 : Nat) ∧ ((4 : Nat) : Int) < T.top ∧ preScreen (4 : Nat) T = true) ∧
+    merge (mergerCfg dna [99, 97, 97, 99, 103, 116, 116, 103] [99, 97, 97, 99, 103, 116, 116, 103] 4 0 2 5 true)
+      [⟨4, 8, 0⟩] = some [] := by
+  refine ⟨?_, by decide +kernel⟩
+  exact epsmatch_inside_trapezoid_complement_given_merge fourLetter_dna [99, 97, 97, 99, 103, 116, 116, 103] [99, 97, 97, 99, 103, 116, 116, 103] 4 4 0 2 5
+    (by decide) (by decide) (by decide)
+    (by unfold Biogo.Proofs.FilterComplete.AllValid; decide) (by unfold Biogo.Proofs.FilterComplete.AllValid; decide)
+    (by decide) (by decide) (by decide) (by decide)
+    [⟨4, 8, 0⟩] (except_ok_of_check _ _ (by decide +kernel)) [⟨4, 8, 0⟩] (by simp [toF]) (by simp [SortedByFrom])
+    [⟨8, 4, 0, 1⟩] (by decide +kernel) 4 4 (by decide +kernel) (by decide)
+
+/-- the same witness through `epsmatch_inside_trapezoid_complement`: no hypothesis on the merger —
+    the theorem supplies the trapezoid list of the complement strand -/
+example :
+    ∃ traps, merge (mergerCfg Biogo.Properties.C14.dna [99, 97, 97, 99, 103, 116, 116, 103] [99, 97, 97, 99, 103, 116, 116, 103] 4 0 2 5 false)
+        [⟨4, 8, 0⟩] = some traps ∧
+      ∀ a b, EpsMatch Biogo.Properties.C14.dna [99, 97, 97, 99, 103, 116, 116, 103] [99, 97, 97, 99, 103, 116, 116, 103] 4 0 a b →
+        [99, 97, 97, 99, 103, 116, 116, 103].length ≤ a + b →
+        ∃ T ∈ traps, T.left ≤ (b : Int) - a ∧ (b : Int) - a ≤ T.right ∧
+          T.bottom < (b : Int) + (4 : Nat) ∧ (b : Int) < T.top ∧ preScreen (4 : Nat) T = true :=
+  epsmatch_inside_trapezoid_complement fourLetter_dna [99, 97, 97, 99, 103, 116, 116, 103] [99, 97, 97, 99, 103, 116, 116, 103] 4 4 0 2 5
+    (by decide) (by decide) (by decide)
+    (by unfold Biogo.Proofs.FilterComplete.AllValid; decide) (by unfold Biogo.Proofs.FilterComplete.AllValid; decide)
+    (by decide) (by decide) (by decide) (by decide) (by decide)
+    [⟨4, 8, 0⟩] (except_ok_of_check _ _ (by decide +kernel)) [⟨4, 8, 0⟩] (by simp [toF]) (by simp [SortedByFrom])
 
 /-! ### the width condition of `filter_hits_within_query_band` is needed (the sixth defect) -/
 
